@@ -1,5 +1,6 @@
 import Blue.Model.BlockSeal
 import Blue.Model.SstBuild
+import Blue.Model.SstFile
 import Blue.Model.Setsum
 import Blue.Driver.Util
 /-! Driver verbs for blocks and tables (property C10).
@@ -8,7 +9,7 @@ import Blue.Driver.Util
     (byte `hh` repeated `n` times).  Entries: `P,key,ts,value[,sha3]` / `D,key,ts[,sha3]`.
     Cursor ops: `F L N P`, `S,key`, `G,key,ts` (point lookup). -/
 namespace Blue.Driver.C10
-open Blue.Driver Blue.Block Blue.BlockCursor Blue.Sst Blue.Cursor
+open Blue.Driver Blue.Block Blue.BlockCursor Blue.Sst Blue.Cursor Blue.SstOpen
 
 /-! ### parsing -/
 def parsePart (s : String) : Option (List Nat) :=
@@ -168,6 +169,50 @@ def sealOne (o : SstOpts) (atts : List Attempt) (s : SB) (filter : List Nat) : E
       | .error .assert => .error "seal-panic"
       | .ok f => .ok f
 
+/-! The table is read back from the *file image* the builder model wrote (`SstFile.bytes`) by the
+    model of `Sst::new` / `Sst::load_block` (`Blue.SstOpen.openSst`: trailer, final block, sanity
+    checks, index block, every index entry's `BlockMetadata`, filter block; data blocks lazily
+    through their `(start, limit, crc32c)`), with the builder's own CRC32C — the instance
+    `sst_file_roundtrip_crc32c` speaks about.  The older path (`SstFile.open`: blocks taken through
+    the final block *structure*) is run alongside; a difference between the two is answered
+    `model-split` (it would contradict the theorem). -/
+
+/-- one lazily evaluated, remembered load per index entry (the loader is a pure function of the
+    file and the index entry, so the cursor cannot tell) -/
+def mkCache (t : Opened) : Array (Thunk (Except Err (List KV))) :=
+  (Array.range t.entries.length).map fun i => Thunk.mk fun _ => t.loadIdx crc32c i
+
+def memoGet (cache : Array (Thunk (Except Err (List KV)))) (t : Opened) (i : Nat) : Except Err (List KV) :=
+  match cache[i]? with
+  | some th => th.get
+  | none => t.loadIdx crc32c i
+
+def showErr (e : Err) : String := "E:" ++ e.code
+
+/-- `Opened.step` / `Opened.load` with the remembered loader -/
+def runOpened (t : Opened) (ld : Nat → Except Err (List KV)) : LCur → List POp → List String
+  | _, [] => []
+  | c, .cur op :: ops =>
+    let n := t.entries.length
+    let r : Except Err LCur := match op with
+      | .first => .ok t.toFirst
+      | .last => .ok t.toLast
+      | .next => nextG n ld (n + 2) c
+      | .prev => prevG ld (n + 2) c
+      | .seek k => seekG n ld (t.seekIndex k) k
+    match r with
+    | .ok c' => showKV c'.kv :: runOpened t ld c' ops
+    | .error e => showErr e :: runOpened t ld c ops
+  | c, .get k ts :: ops =>
+    (match loadG t.entries.length ld t.fuel (t.seekIndex k) k ts with
+      | .ok r => showLoaded r
+      | .error e => showErr e) :: runOpened t ld c ops
+
+def metaOpened (t : Opened) (ld : Nat → Except Err (List KV)) : String :=
+  match endsG t.entries.length ld with
+  | .ok ends => tokOfBytes (encMetadata (t.metaOf ends))
+  | .error e => showErr e
+
 def handleSst (o : SstOpts) (filter : List Nat) (atts : List Attempt) (ops : List POp) : String :=
   let r := SB.putAll o SB.init (atts.map (·.kv))
   let head := s!"r={String.ofList (r.1.map showBuildErr)}"
@@ -175,10 +220,16 @@ def handleSst (o : SstOpts) (filter : List Nat) (atts : List Attempt) (ops : Lis
   | .error m => head ++ " " ++ m
   | .ok f =>
     let head := s!"{head} B={hexList f.blocks} I={tokOfBytes f.index} Z={tokOfBytes f.final}"
-    match f.open with
-    | none => head ++ " unopenable"
-    | some t =>
-      " ".intercalate (s!"{head} M={tokOfBytes (encMetadata t.metadata)}" :: runTable t t.cursor ops)
+    match openSst crc32c f.bytes with
+    | .error e => head ++ " unopenable:" ++ e.code
+    | .ok t =>
+      let ld := memoGet (mkCache t) t
+      let fromImage := s!"M={metaOpened t ld}" :: runOpened t ld t.toFirst ops
+      let fromStruct := match f.open with
+        | none => ["unopenable"]
+        | some tt => s!"M={tokOfBytes (encMetadata tt.metadata)}" :: runTable tt tt.cursor ops
+      if fromImage == fromStruct then " ".intercalate (head :: fromImage)
+      else " ".intercalate (head :: "model-split" :: fromImage)
 
 def sealMany (o : SstOpts) (atts : List Attempt) : List SB → List (List Nat) → Except String (List SstFile)
   | [], [] => .ok []
@@ -195,9 +246,14 @@ def handleMulti (o : SstOpts) (filters : List (List Nat)) (atts : List Attempt) 
   match sealMany o atts r.2.files filters with
   | .error m => head ++ " " ++ m
   | .ok fs =>
-    match allSome (fs.map SstFile.open) with
-    | none => head ++ " unopenable"
-    | some ts => s!"{head} M={hexList (ts.map fun t => encMetadata t.metadata)}"
+    let ms := fs.map fun f => match openSst crc32c f.bytes with
+      | .error e => showErr e
+      | .ok t => metaOpened t (memoGet (mkCache t) t)
+    let ms' := fs.map fun f => match f.open with
+      | none => "unopenable"
+      | some t => tokOfBytes (encMetadata t.metadata)
+    if ms == ms' then s!"{head} M={if ms.isEmpty then "none" else ",".intercalate ms}"
+    else s!"{head} model-split M={if ms.isEmpty then "none" else ",".intercalate ms}"
 
 /-! ### decisions -/
 def handleCheck : List String → String
